@@ -1076,3 +1076,92 @@ def c13_q3(ctx):
             yield ok("C13-Q3", key, at(f, s["span"]["line"]), "an end without a Finished PDU (unacknowledged, no closure) reports an empty response list: " + txt[:80])
         else:
             yield bad("C13-Q3", key, at(f, s["span"]["line"]), "sender indication responses come from %s" % txt)
+
+
+# ================================================================ C18-U5
+def _closure_guard_form(ctx, f, e):
+    """Classify a boolean expression that asks 'was closure requested?': returns
+    ('ok', txt) when it is metadata.map(|m| m.closure_requested) with default false,
+    ('bad', why) when it mentions closure_requested in another form, None otherwise."""
+    from core import inline_helpers
+    from common import simp, sstr
+
+    e = simp(inline_helpers(ctx.prog, e))
+    txt = expr_str(e)
+    if "closure" not in txt and "metadata" not in txt:
+        return None
+
+    def closure_returns_flag(clo):
+        if clo[0] != "agg" or clo[1] != "closure":
+            return False
+        c = ctx.prog.by_norm.get(clo[2])
+        if c is None:
+            return False
+        ebc = ExprBuilder(ctx.prog, c)
+        rets = [sstr(ebc._def_expr(d, 0, (0,))) for d in c.defs(0) if d[0] in ("assign", "call")]
+        return len(rets) == 1 and rets[0].endswith(".closure_requested")
+
+    if e[0] == "call":
+        last = (callee_name(e) or "").split("::")[-1]
+        if last == "unwrap_or" and len(e[3]) == 2:
+            inner, dflt = simp(e[3][0]), simp(e[3][1])
+            if inner[0] == "call" and (callee_name(inner) or "").split("::")[-1] == "map" and len(inner[3]) == 2 and expr_str(simp(inner[3][0])) == "self.metadata" and closure_returns_flag(inner[3][1]):
+                if dflt[0] == "const" and dflt[1] in (0, False):
+                    return ("ok", "metadata.map(closure_requested).unwrap_or(false)")
+                return ("bad", "closure is assumed requested when no metadata is held (default %s)" % expr_str(dflt))
+        if last in ("map_or", "is_some_and") and e[3] and expr_str(simp(e[3][0])) == "self.metadata":
+            clo = e[3][-1]
+            if closure_returns_flag(clo):
+                if last == "is_some_and":
+                    return ("ok", "metadata.is_some_and(closure_requested)")
+                dflt = simp(e[3][1])
+                if dflt[0] == "const" and dflt[1] in (0, False):
+                    return ("ok", "metadata.map_or(false, closure_requested)")
+                return ("bad", "closure is assumed requested when no metadata is held (default %s)" % expr_str(dflt))
+    if "closure_requested" in txt:
+        return ("bad", "unrecognised closure test %s" % txt[:120])
+    return None
+
+
+@rule("C18", "C18-U5", 2, "in unacknowledged mode a Finished PDU is prepared only when the held metadata requested closure (no metadata means no closure)")
+def c18_u5(ctx):
+    from core import dominators
+    from common import val_in
+
+    fns = impl_fns(ctx, RECV)
+
+    def track(key):
+        return key[0] == "val" and key[1] == "self.config.transmission_mode"
+
+    n = 0
+    for f, b, t, d, r in call_sites(fns, ends("RecvTransaction::prepare_finished"), ctx.prog):
+        fl = Flow(ctx.prog, ctx.mods, f, track)
+        worlds = fl.at_term(b)
+        if worlds and all(val_in(dict(w), "self.config.transmission_mode", {"Acknowledged"}) for w in worlds):
+            continue
+        if f.name in ("check_finished",):
+            continue  # acknowledged-only helper (its callers are checked by C04-F / the mode dispatch)
+        n += 1
+        key = "RecvTransaction::%s:prepare_finished" % f.name
+        dom = dominators(f)
+        eb = ExprBuilder(ctx.prog, f)
+        verdicts = []
+        for sb in f.live_blocks():
+            st = f.blocks[sb]["term"]
+            if st["k"] != "switch" or sb not in dom.get(b, ()) or sb == b:
+                continue
+            e = eb.operand(st["discr"])
+            got = _closure_guard_form(ctx, f, e)
+            if got is None:
+                continue
+            # polarity: the call must lie on the true edge
+            on_true = st["otherwise"] in dom.get(b, ()) or any(v != 0 and tb in dom.get(b, ()) for v, tb in st["targets"])
+            verdicts.append((got, on_true))
+        if any(g[0] == "ok" and tr for g, tr in verdicts) and not any(g[0] == "bad" for g, tr in verdicts):
+            yield ok("C18-U5", key, at(f, t["span"]["line"]), [g[1] for g, tr in verdicts])
+        elif verdicts:
+            yield bad("C18-U5", key, at(f, t["span"]["line"]), "Finished prepared in unacknowledged mode under a closure test that is not 'metadata held and closure requested': %s" % [(g[1], "true edge" if tr else "false edge") for g, tr in verdicts])
+        else:
+            yield bad("C18-U5", key, at(f, t["span"]["line"]), "Finished prepared in unacknowledged mode without testing that closure was requested")
+    if n == 0:
+        raise Anchor("C18-U5", "prepare_finished call sites reachable in unacknowledged mode")
